@@ -155,6 +155,35 @@ func (o *oracle) checkVerifierStrict(inst *Instance, ev *CkptEvent) {
 				c.Origin, c.N, c.Hash[:4], ts, got.Origin, got.Size, got.Root, got.Timestamp)
 		}
 	}
+	// the injected signer (how the log attaches its RFC 6962 signature): one
+	// signer object, the genuine text first, then texts it must refuse. Whatever
+	// it signs has to open with the public verifier.
+	if len(sigRaw) > 12 {
+		ts, _ := sunlight.RFC6962SignatureTimestamp(note.Signature{Name: inst.name, Hash: v1.KeyHash(), Base64: base64.StdEncoding.EncodeToString(sigRaw)})
+		if signer, err := sunlight.NewRFC6962InjectedSigner(inst.name, inst.key.Public(), sigRaw[12:], ts); err == nil {
+			texts := []string{n.Text,
+				fmt.Sprintf("%s\n%d\n%s\n", inst.name, ev.STH.Size+1, base64.StdEncoding.EncodeToString(ev.STH.Root[:])),
+				n.Text + "extension line\n", n.Text}
+			if prevOther != nil {
+				if pn, err := ref.ParseNote(prevOther); err == nil {
+					texts = append(texts, pn.Text)
+				}
+			}
+			for i, text := range texts {
+				signed, err := note.Sign(&note.Note{Text: text}, signer)
+				w.sim.Probe("c11.injected.sign")
+				if err != nil {
+					if text == n.Text {
+						o.v("C11", "injected-signer", "the injected signer refuses the text its signature was made for: %v", err)
+					}
+					continue
+				}
+				if _, err := note.Open(signed, note.VerifierList(v1)); err != nil {
+					o.v("C11", "injected-signer", "the injected signer signed text %d (a text its signature does not cover); the result does not open with the public verifier: %v", i, err)
+				}
+			}
+		}
+	}
 	o.otherCkpts = append(o.otherCkpts, orig)
 	if len(o.otherCkpts) > 8 {
 		o.otherCkpts = o.otherCkpts[1:]
